@@ -140,6 +140,59 @@ theorem forIn_upto {σ τ} {VR : σ → τ → Prop} (n : Nat) (init : σ) (init
   simp [List.mem_range', Std.Legacy.Range.size] at hi
   omega
 
+theorem pre_or {α β} {A₁ A₂ : State → State → Prop} {Q : α → β → State → State → Prop} {m₁ : M α} {m₂ : M β}
+    (h1 : RelS A₁ Q m₁ m₂) (h2 : RelS A₂ Q m₁ m₂) : RelS (fun s t => A₁ s t ∨ A₂ s t) Q m₁ m₂ := by
+  intro s t h
+  rcases h with h | h
+  · exact h1 s t h
+  · exact h2 s t h
+
+theorem pre_and {α β} {P : Prop} {Q : α → β → State → State → Prop} {m₁ : M α} {m₂ : M β}
+    (h : P → RelS A Q m₁ m₂) : RelS (fun s t => P ∧ A s t) Q m₁ m₂ := by
+  intro s t hp
+  exact h hp.1 s t hp.2
+
+theorem pre_exists {α β ι} {A' : ι → State → State → Prop} {Q : α → β → State → State → Prop} {m₁ : M α} {m₂ : M β}
+    (h : ∀ i, RelS (A' i) Q m₁ m₂) : RelS (fun s t => ∃ i, A' i s t) Q m₁ m₂ := by
+  intro s t ⟨i, hi⟩
+  exact h i s t hi
+
+/-- a loop that may be left early (`return` inside `for`): `E` describes the early exit -/
+theorem forIn_list_exit {ι σ τ} {VR : σ → τ → Prop} {E : σ → τ → State → State → Prop} (l : List ι) (init : σ) (init' : τ)
+    (f : ι → σ → M (ForInStep σ)) (g : ι → τ → M (ForInStep τ)) (h0 : VR init init')
+    (hf : ∀ i, i ∈ l → ∀ b b', VR b b' → RelS A (fun x y s t =>
+        (∃ u u', x = .yield u ∧ y = .yield u' ∧ VR u u' ∧ A s t) ∨ (∃ u u', x = .done u ∧ y = .done u' ∧ E u u' s t)) (f i b) (g i b')) :
+    RelS A (fun x y s t => (VR x y ∧ A s t) ∨ E x y s t) (forIn l init f) (forIn l init' g) := by
+  induction l generalizing init init' with
+  | nil =>
+    simp only [List.forIn_nil]
+    exact RelS.pure (fun s t h => Or.inl ⟨h0, h⟩)
+  | cons i r ih =>
+    rw [List.forIn_cons, List.forIn_cons]
+    refine bind (hf i (by simp) init init' h0) ?_
+    intro x y
+    refine pre_or ?_ ?_
+    · refine pre_exists fun u => pre_exists fun u' => ?_
+      refine pre_and fun hx => pre_and fun hy => pre_and fun hu => ?_
+      subst hx; subst hy
+      exact ih u u' hu (fun j hj => hf j (by simp [hj]))
+    · refine pre_exists fun u => pre_exists fun u' => ?_
+      refine pre_and fun hx => pre_and fun hy => ?_
+      subst hx; subst hy
+      exact RelS.pure (fun s t h => Or.inr h)
+
+theorem forIn_upto_exit {σ τ} {VR : σ → τ → Prop} {E : σ → τ → State → State → Prop} (n : Nat) (init : σ) (init' : τ)
+    (f : Nat → σ → M (ForInStep σ)) (g : Nat → τ → M (ForInStep τ)) (h0 : VR init init')
+    (hf : ∀ i, i < n → ∀ b b', VR b b' → RelS A (fun x y s t =>
+        (∃ u u', x = .yield u ∧ y = .yield u' ∧ VR u u' ∧ A s t) ∨ (∃ u u', x = .done u ∧ y = .done u' ∧ E u u' s t)) (f i b) (g i b')) :
+    RelS A (fun x y s t => (VR x y ∧ A s t) ∨ E x y s t) (forIn [:n] init f) (forIn [:n] init' g) := by
+  rw [Std.Legacy.Range.forIn_eq_forIn_range', Std.Legacy.Range.forIn_eq_forIn_range']
+  refine forIn_list_exit _ _ _ _ _ h0 ?_
+  intro i hi
+  refine hf i ?_
+  simp [List.mem_range', Std.Legacy.Range.size] at hi
+  omega
+
 end RelS
 
 /-! ### the offset relation -/
